@@ -92,6 +92,7 @@ TraceReach ==
     /\ fails' = fails \cup Proto(pc = "called", "ReachDone")
                       \cup ReachClauses(desc, orc, Ev.prob)
                       \cup RStratClauses(desc, orc, Ev.prob, Ev.rstrat)
+                      \cup (IF orc.exact THEN {} ELSE BellmanReach(desc, Ev.prob))
                       \cup PruneSame
                       \cup RelReachClauses(S, dcur, prune, Ev.prob, Ev.rstrat, reached, orcs)
     /\ reached' = Put(reached, <<dcur, prune>>, [prob |-> Ev.prob, rstrat |-> Ev.rstrat])
@@ -153,6 +154,7 @@ TraceReturn ==
                 \cup (IF pc = "conditioned" /\ Ev.rstrat # rstrat THEN {"C04.ReportedDiffers"} ELSE {})
                 \cup (IF pc = "conditioned"
                       THEN RewardClauses(ro, Ev.rew)
+                           \cup (IF orc.exact \/ Len(Ev.rew) # desc.n THEN {} ELSE BellmanReward(ro.Gc, ro.Dom, Ev.rew))
                            \cup FStratClauses(desc, ro, rstrat, Ev.fstrat)
                            \cup DiagClauses(desc, ro, rstrat, Ev.fstrat, Ev.aux1, Ev.aux2)
                       ELSE {})
